@@ -161,7 +161,11 @@ def where_filter(ctx):
                 msg='WhereEqual compares the raw value stored in the instance dictionary instead of what the attribute reads as: with a stale stored '
                     'copy and component matches %s the instance is %s' % (list(matches), 'dropped' if want else 'yielded'))
     we = repo.func(M + 'where_eq')
-    r.check(pm.contains('return WhereEqual(kwargs)', we), 'where_eq wraps its keywords', we, construct=M + 'where_eq', key='where_eq',
+    wcls = repo.cls(M + 'WhereEqual')
+    plain_dict = [dotted(b) for b in wcls.bases] == ['dict'] and '__init__' not in repo.methods(wcls) and '__new__' not in repo.methods(wcls)
+    spellings = ['return WhereEqual(kwargs)'] + (['return WhereEqual(**kwargs)', 'return WhereEqual(dict(kwargs))', 'return WhereEqual(kwargs.items())']
+                                                if plain_dict else [])      # a dict subclass without a constructor of its own: all the same dictionary
+    r.check(any(pm.contains(sp_, we) for sp_ in spellings), 'where_eq wraps its keywords', we, construct=M + 'where_eq', key='where_eq',
             msg='where_eq does not return WhereEqual(kwargs)')
     q = repo.func(M + 'MetaClass.query')
     r.check(pm.contains('return WhereEqual(_D)(self.storage)', q), 'MetaClass.query filters the pool in creation order', q, construct=M + 'MetaClass.query',
@@ -355,7 +359,8 @@ def nav(ctx):
     for h, want in (('none', ['[]', 'list()']), ('instance', ['[handle]']), ('set', ['handle'])):
         out, tr = it.run({'h': h})
         stored = [t[1] for t in tr if isinstance(t, tuple) and t[0] == 'store']
-        r.check(len(stored) == 1 and stored[0] in want and out.kind == 'falloff', 'NavChain(%s) starts from %s' % (h, want[0]), ni,
+        ended = out.kind == 'falloff' or (out.kind == 'return' and (out.value is None or (isinstance(out.value, ast.Constant) and out.value.value is None)))
+        r.check(len(stored) == 1 and stored[0] in want and ended, 'NavChain(%s) starts from %s' % (h, want[0]), ni,
                 construct=M + 'NavChain.__init__', key='init ' + h, msg='NavChain(%s) stores %s, ends %r; expected %s' % (h, stored, out, want[0]))
     out, tr = it.run({'h': 'other'})
     r.check(out.kind == 'raise' and exception_class_name(out.node) == 'MetaException', 'a non-iterable handle is rejected with MetaException', ni,
@@ -411,5 +416,17 @@ def nav(ctx):
     r.check(ok, 'QuerySet.first / last are the ends of the iteration order', qs, construct=M + 'QuerySet', key='first-last',
             msg='QuerySet.first/last are no longer next(iter(self)) / next(reversed(self))')
     ln = repo.func(M + 'Link.navigate_one')
-    r.check(pm.contains('return next(iter(self.navigate(instance)), None)', ln), 'Link.navigate_one is the first partner or None', ln,
+    lnf = repo.nfunc(M + 'Link.navigate_one')
+    P1 = param_names(lnf)[0]
+    it1 = absint.Interp(lnf, [('%s in self' % P1, lambda e, s, tr: s['has']), ('%s not in self' % P1, lambda e, s, tr: not s['has'])])
+    it1.pure_calls = {'navigate', 'next', 'iter'}
+    ok1 = True
+    for has in (True, False):
+        o1, _t = it1.run({'has': has})
+        v1 = absint.strip0(o1.value) if o1.kind == 'return' and o1.value is not None else None
+        delegating = v1 is not None and pm.match('next(iter(self.navigate(%s)), None)' % P1, v1) is not None
+        direct = v1 is not None and pm.match('next(iter(self[%s]), None)' % P1, v1) is not None
+        nothing = o1.kind == 'falloff' or (o1.kind == 'return' and (o1.value is None or (isinstance(v1, ast.Constant) and v1.value is None)))
+        ok1 = ok1 and (delegating or (direct if has else nothing))
+    r.check(ok1, 'Link.navigate_one is the first partner or None', ln,
             construct=M + 'Link.navigate_one', key='navigate_one', msg='Link.navigate_one is not next(iter(self.navigate(instance)), None)')
